@@ -196,7 +196,7 @@ impl Prop for C12 {
         let mut nb = if rng.chance(1, 8) { rng.below(4) } else { na };
         if rng.chance(1, 16) {
             // a large batch: more pairs than worker threads, big and small matrices alternating
-            na = rng.range(36, 100);
+            na = if rng.chance(1, 2) { rng.range(36, 100) } else { rng.range(300, 700) };
             nb = if rng.chance(1, 10) { na - 1 } else { na };
         }
         mk_input(g, swap, sid, norm, &a.concat(), &b.concat(), na, nb)
@@ -247,7 +247,7 @@ impl Prop for C12 {
         }
         let na = l[6].as_usize()?;
         let nb = l[7].as_usize()?;
-        if na > 128 || nb > 128 {
+        if na > 1024 || nb > 1024 {
             return None;
         }
         // up to three elements: prefixes of [a,b,a] / [b,a,b]; more: a large batch alternating between the whole
@@ -325,8 +325,8 @@ impl Prop for C12 {
             Val::b(l[3].as_bool()?),
             Val::clusters(&a, g),
             Val::clusters(&b, g),
-            Val::u(l[6].as_usize()?.min(3)),
-            Val::u(l[7].as_usize()?.min(3)),
+            Val::u(l[6].as_usize()?.min(1024)),
+            Val::u(l[7].as_usize()?.min(1024)),
         ]))
     }
 
